@@ -33,7 +33,8 @@
    What is NOT prescribed ("any", written -1): a slot that was assigned with set() inside an override and whose
    task was then suspended (the property names the override's value, the sequential reading the assigned one);
    reads of a sibling of a slot that another task assigned outside its own overrides (no sequential order
-   between siblings); whether reads after a block in the OTHER branches still happen when one branch fails. *)
+   between siblings); whether the reads of the OTHER branches still happen when one branch fails (their values are
+   prescribed if they happen). *)
 EXTENDS Naturals, Integers, Sequences, FiniteSets, TLC, Json, IOUtils
 
 Depth == IF "DEPTH" \in DOMAIN IOEnv THEN atoi(IOEnv.DEPTH) ELSE 4
@@ -162,7 +163,8 @@ ListsFrom(b) ==
        \cup (IF Tier = "quick" THEN {} ELSE {<<b, c, d>> : c \in CorePair, d \in CorePair})
   ELSE {<<b>>} \cup {<<b, s>> : s \in Sibs}
        \cup (IF Tier = "quick" THEN (IF b \in CorePair THEN {<<b, c>> : c \in CorePair} ELSE {})
-             ELSE {<<b, c>> : c \in Calls} \cup (IF b \in CorePair THEN {<<b, s, c>> : s \in Sibs, c \in CorePair} ELSE {}))
+             ELSE {<<b, c>> : c \in (IF b \in CorePair THEN Calls ELSE CorePair)}        \* two calls, one of them a core one
+                  \cup (IF b \in CorePair THEN {<<b, s, c>> : s \in Sibs, c \in CorePair} ELSE {}))
 Stubs == {Cell(sk, conv, outer, 0, <<b>>) : sk \in SlotKinds, conv \in {"yield", "sync", "value"}, outer \in {0, 1}, b \in Sibs \cup Calls}
          \cup {[api |-> "fresh", sk |-> "attr", conv |-> conv, outer |-> 0, catch |-> 0, br |-> <<>>] : conv \in {"plain", "task", "cwc", "cwcproxy"}}
 CellsOf(stub) ==
@@ -174,24 +176,25 @@ CellsOf(stub) ==
 
 (* the facts of a cell, computed once: the reads the sequential run executes, each with the value Seq gives it (sx, sy),
    the value Lex gives it (x, y: the PRESCRIBED one), its branch, and whether it must happen *)
-AfterBlock(P, t, i) == \E j \in 1..(i - 1) : P[t][j].op = "block"
 BranchOfTask(t) == IF t = 1 THEN 0 ELSE ((t - 2) \div 4) + 1
-Must(c, P, t, i) ==       \* may be skipped only: after a block, in a branch that does not fail, while another one fails
-  LET bi == BranchOfTask(t) IN ~(bi # 0 /\ AfterBlock(P, t, i) /\ c.br[bi].fail = 0 /\ Fails(c.br))
+NFail(br) == Cardinality({i \in 1..Len(br) : br[i].fail = 1})
+Must(c, t) ==             \* which of the OTHER awaited branches still run when one fails is not this property's business
+  LET bi == BranchOfTask(t) IN bi = 0 \/ NFail(c.br) = 0 \/ (NFail(c.br) = 1 /\ c.br[bi].fail = 1)
 CellOut(c) ==
-  IF c.api = "fresh" THEN [reads |-> <<>>, fin |-> <<0, 0>>]     \* checked by the harness: reads inside = the override's value if reached, attribute absent afterwards
+  IF c.api = "fresh"      \* override of a missing attribute with 5: whether it can be entered is not prescribed; a read inside
+                          \* (if reached) gives 5, and afterwards the attribute is what it was before: absent
+  THEN [reads |-> <<>>, fin |-> Base, inside |-> 5, after |-> "absent"]
   ELSE LET P == Prog(c)
            g == SeqRun(P)
        IN [reads |-> [k \in 1..Len(g.reads) |-> LET r == g.reads[k]
                                                      v == LexRead(P, r.t, r.i)
                                                  IN [l |-> r.l, x |-> v[1], y |-> v[2], sx |-> r.x, sy |-> r.y,
-                                                     bi |-> BranchOfTask(r.t), must |-> Must(c, P, r.t, r.i)]],
+                                                     bi |-> BranchOfTask(r.t), must |-> Must(c, r.t)]],
            fin |-> g.store]
 
 (* ================================================================ (2) histories of the API *)
 Ent(s, v, saved, own) == [s |-> s, v |-> v, saved |-> saved, own |-> own, dirty |-> FALSE, taint |-> FALSE]
 EntsOf(s) == {k \in 1..Len(stk) : stk[k].s = s}
-Tainted(s) == EntsOf(s) # {} /\ stk[MaxOf(EntsOf(s))].taint
 Presc(st, c, s) == LET ix == {k \in 1..Len(st) : st[k].s = s} IN IF ix # {} /\ st[MaxOf(ix)].taint THEN AnyV ELSE c[s]
 HOp(op, s, v, st, c) == [op |-> op, s |-> s, v |-> v, x |-> Presc(st, c, 1), y |-> Presc(st, c, 2)]
 Growing == stage = 2 /\ Len(hist) < Depth
